@@ -357,6 +357,17 @@ class Checker:
                 got = list(f(root, p, is_case=ic, is_re=ir, **kwk))
             except Exception as ex:  # noqa: BLE001
                 return self.fail("query-raised:%s:%s" % (fname, type(ex).__name__), "%s pattern %r raised %r" % (tag, p, ex))
+            # R6: the method / shortcut of the same name on the root element answers like the module-level function
+            meth = getattr(root, fname, None) if not isinstance(root, (list, tuple, set)) else None
+            if callable(meth) and self.r.random() < 0.25:
+                try:
+                    got_m = list(meth(p, is_case=ic, is_re=ir, **kwk))
+                except Exception as ex:  # noqa: BLE001
+                    return self.fail("shortcut-raised:%s:%s" % (fname, type(ex).__name__), "%s as a method of the root, pattern %r raised %r" % (tag, p, ex))
+                ctx.count("relations_R6_shortcut")
+                if sorted(map(id, got_m)) != sorted(map(id, got)):
+                    return self.fail("R6:%s:%s" % (fname, root_label), "%s pattern %r: root.%s(...) returned %d, sdn.%s(root, ...) returned %d" % (
+                        tag, p, fname, len(got_m), fname, len(got)))
             exp = [x for x in U if match(self.value(x, k_eff), p, ic, ir)]
             ctx.count("relations_R1")
             self.rel += 1
